@@ -220,6 +220,21 @@ class Stop(Exception):
     pass
 
 
+class VfStablePalette(Palette):
+    """a component palette that lives as long as the process and is used with many configurations, sometimes
+    only through its effect-free variant"""
+    SYNTAX_DEFAULTS = {"VFS.A": "RED", "VFS.B": "VFS.A:/BLUE:bold"}
+    a = ConfColor("VFS.A")
+    b = ConfColor("VFS.B")
+
+
+STABLE_ITEMS = {
+    "VFS.A": dict(parent=None, fg=('c', 1), bg='inherit', mods={}, descr="RED", initial_only=False, stable=True),
+    "VFS.B": dict(parent="VFS.A", fg='inherit', bg=('c', 4), mods={'bold': True}, descr="VFS.A:/BLUE:bold",
+                  initial_only=False, stable=True),
+}
+
+
 def run_history(ctx, items, plan, mode, case):
     """plan = {"init": [ids], "batches": [[kind, [ids], [conflict ids]], ...]}"""
     registered = set()
@@ -334,6 +349,11 @@ def run_history(ctx, items, plan, mode, case):
             try:
                 if kind == "add":
                     conf.add_new_items(new, "batch%d" % bi)
+                elif kind == "palette-stable":
+                    # the long-lived component palette comes to this configuration, here through its
+                    # effect-free variant (which exists once per class, whatever the configuration)
+                    VfStablePalette(conf, plan.get("stable_no_color", True))
+                    ctx.count("long_lived_palette_class_met_a_new_configuration")
                 else:
                     _UNIQ[0] += 1
                     accessors = {"a%d" % k: sid for k, sid in enumerate(batch)}
@@ -407,7 +427,7 @@ def run_history(ctx, items, plan, mode, case):
 
 
 def make_plan(rng, items, mode):
-    ids = [i for i in items if not items[i]['initial_only']]
+    ids = [i for i in items if not items[i]['initial_only'] and not items[i].get('stable')]
     rng.shuffle(ids)
     late = [i for i in ids if items[i].get('late')]
     ids = [i for i in ids if not items[i].get('late')]
@@ -424,12 +444,14 @@ def make_plan(rng, items, mode):
         batches.append([rng.choice(kinds), batch, conflicts])
     for i in late:
         batches.insert(rng.randint(0, len(batches)), ["add", [i], []])
+    if any(it.get('stable') for it in items.values()):
+        batches.insert(rng.randint(0, len(batches)), ["palette-stable", sorted(STABLE_ITEMS), []])
     swap = None
     if mode == "global" and rng.random() < 0.7:
         pool = [i for i in items if not items[i].get('late')]
         swap = [i for i in pool if items[i]['initial_only'] or rng.random() < 0.4]
     return {"init": init, "batches": batches, "early_palette": rng.random() < 0.5, "swap": swap,
-            "plain_global_palette": rng.random() < 0.3}
+            "plain_global_palette": rng.random() < 0.3, "stable_no_color": rng.random() < 0.7}
 
 
 def run_shard(ctx):
@@ -441,6 +463,8 @@ def run_shard(ctx):
         _UNIQ[0] += 1
         prefix = "U%dx" % _UNIQ[0] if mode == "global" else ""
         items = gen_set(rng, prefix, dangling=(mode == "global" and rng.random() < 0.7))
+        if mode != "global" and rng.random() < 0.3:
+            items.update({k: dict(v) for k, v in STABLE_ITEMS.items()})
         for trial in range(3):
             ctx.evaluated()
             if mode == "global" and trial:
